@@ -301,6 +301,65 @@ example : ∃ i rep rc, (recvBundle { nodeId := .dtn [1], rxRoutes := [] } {} 5
       { primary := { dest := .dtn [1], src := .dtn [3], rpt := .dtn [4], ts := ⟨4, 0⟩, flags := 0x60022 },
         blocks := [], adm := .delete }).2 = [.report i rep rc] := ⟨_, _, _, rfl⟩
 
+/-- number of idle `_do_fwd` firings of a history that found a bundle in the queue -/
+def popped (cfg : Cfg) : St → List Ev → Nat
+  | _, [] => 0
+  | st, e :: es =>
+    (match e with
+      | .fwd _ _ => if st.fwdQ.isEmpty then 0 else 1
+      | _ => 0) + popped cfg (step cfg st e).1 es
+
+/-- **Every queued forward gets its own `_do_fwd`, under any arrival pattern.** Each `queued`
+    effect stands for one entry appended to the forwarding queue together with one idle
+    `_do_fwd` registration (the harness compares that registration with the real idle sources,
+    bursts of back-to-back arrivals included); each idle `_do_fwd` takes exactly one entry off.
+    So over ANY history: entries still queued + firings that found one = entries at the start +
+    `queued` effects. With as many firings as registrations nothing stays behind. -/
+theorem C10_queue_accounting (cfg : Cfg) (evs : List Ev) (st : St) :
+    (run cfg st evs).1.fwdQ.length + popped cfg st evs
+      = st.fwdQ.length + ((run cfg st evs).2.filter isQueued).length := by
+  induction evs generalizing st with
+  | nil => simp [run, popped]
+  | cons e es ih =>
+    simp only [run, popped, List.filter_append, List.length_append]
+    have ih' := ih (step cfg st e).1
+    cases e with
+    | recv now rx =>
+      have := clRecv_fwdQ_len cfg st now rx
+      simp only [step] at ih' this ⊢
+      omega
+    | fwd now sp =>
+      have h1 := doFwd_fwdQ cfg st now sp
+      have h2 := plain_not_queued _ (doFwd_plain cfg st now sp).1
+      simp only [step] at ih' ⊢
+      rw [h2]
+      cases hq : st.fwdQ with
+      | nil => simp [hq] at h1 ⊢; rw [h1] at ih'; simpa using ih'
+      | cons c q =>
+        rw [hq] at h1
+        simp only [List.tail_cons] at h1
+        rw [h1] at ih'
+        simp only [List.isEmpty_cons, Bool.false_eq_true, if_false, List.length_cons, List.length_nil]
+        omega
+    | sendRpt now sp =>
+      have h1 := sendReport_fwdQ cfg st now sp
+      have h2 := plain_not_queued _ (sendReport_plain cfg st now sp).1
+      simp only [step] at ih' ⊢
+      rw [h2]
+      rw [h1] at ih'
+      simp only [List.length_nil]
+      omega
+
+-- a burst: three bundles routed forward received back-to-back, then three idle firings: all three leave
+example :
+    let cfg : Cfg := { nodeId := .dtn [1], rxRoutes := [.forward] }
+    let b (n : Nat) : RxBundle := { primary := { dest := .dtn [2], src := .dtn [3], ts := ⟨4, n⟩ },
+                                    blocks := [{ c := { typeCode := 1, blockNum := 1 } }], routeBits := [true] }
+    let sp : SendParams := { txBits := [true] }
+    let r := run cfg {} [.recv 5 (b 0), .recv 5 (b 1), .recv 5 (b 2), .fwd 6 sp, .fwd 6 sp, .fwd 6 sp]
+    r.1.fwdQ.length = 0 ∧ (r.2.filter isTx).length = 3 ∧ (r.2.filter isQueued).length = 3 := by
+  decide
+
 end C10
 end Props
 end DtnVerif
